@@ -3,7 +3,10 @@ import props.C01 as c01
 import props.C17 as c17
 RULE = c01.RULE + ("; plus counters kept by the harness (handler runs per call token, response frames per call id), and crash points over real "
                    "sockets: a proxy cuts the connection at random moments while calls with handler latencies are in flight, on a library server "
-                   "(handler runs per call <= 1) and on a raw server (no call id seen twice across reconnects, no request answered twice)")
+                   "(handler runs per call <= 1) and on a raw server (no call id seen twice across reconnects, no request answered twice); timeout races: a "
+                   "call whose context ends as its response arrives (forced: the endpoint's lock is busy, the responder queues first, the context is "
+                   "cancelled, the lock is released - server and client endpoint; unforced: 200 server calls with the response timed around the "
+                   "deadline), after which a request on the same endpoint must be answered with exactly one response frame within 2 s")
 ASSUMPTIONS = c01.ASSUMPTIONS
 FILES = c01.FILES + ["root/peers_test.go", "root/c18_test.go", "root/c06_test.go", "root/c05_test.go"]
 RW = {"server.go": [(r"\btransport\.NewServerTransport\(", "vNewServerTransport(")],
